@@ -111,6 +111,19 @@ def nat_orth_unocc(rng):
             d = D[ik][s]
             yo = Y[ik][s][:, at.occ.f[ik][s] > 0]
             e = max(e, np.abs(d.conj().T @ at.O(d) - np.eye(2)).max(), np.abs(d.conj().T @ at.O(yo)).max())
+    # "all fillings": occupied states need not come first (the fillings array of a built object is set directly; the public
+    # setter is subject to the known finding C19.Occupations.f)
+    at = native_atoms(Nspin=2)
+    at.occ._f = np.array([[[1.0, 0.0, 1.0], [1.0, 1.0, 0.0]], [[0.0, 1.0, 1.0], [0.0, 0.0, 1.0]]])[: at.kpts.Nk]
+    W = [rnd(rng, 2, len(at.Gk2c[ik]), 3) for ik in range(at.kpts.Nk)]
+    Y = orth(at, W)
+    Z = [rnd(rng, 2, len(at.Gk2c[ik]), 2) for ik in range(at.kpts.Nk)]
+    D = orth_unocc(at, Y, Z)
+    for ik in range(at.kpts.Nk):
+        for s in range(2):
+            d = D[ik][s]
+            yo = Y[ik][s][:, np.asarray(at.occ.f[ik][s]) > 0]
+            e = max(e, np.abs(d.conj().T @ at.O(d) - np.eye(2)).max(), np.abs(d.conj().T @ at.O(yo)).max())
     return e
 
 
